@@ -674,7 +674,14 @@ class Collector : public RecursiveASTVisitor<Collector> {
 
   bool VisitFunctionDecl(FunctionDecl* F) {
     if (!F->doesThisDeclarationHaveABody()) return true;
-    if (!Em.inRoots(F->getLocation())) return true;
+    if (!Em.inRoots(F->getLocation())) {
+      // "driver" code: the non-template functions of a probe translation unit itself.  Their bodies are emitted separately so
+      // that rules can read which library function each call / construction in the probe RESOLVES to (overload resolution).
+      SourceLocation L = Em.SM.getExpansionLoc(F->getLocation());
+      if (Em.SM.isInMainFile(L) && !F->isDependentContext() && Em.SM.getFilename(L).contains("probes/"))
+        Drivers.push_back(F);
+      return true;
+    }
     if (F->isDependentContext()) {
       Patterns.push_back(F);
       return true;
@@ -705,7 +712,7 @@ class Collector : public RecursiveASTVisitor<Collector> {
     return true;
   }
   Emitter& Em;
-  std::vector<const FunctionDecl*> Funcs, Patterns;
+  std::vector<const FunctionDecl*> Funcs, Patterns, Drivers;
   std::vector<const VarDecl*> Statics;
   std::vector<const EnumDecl*> Enums;
   std::vector<const CXXRecordDecl*> Records;
@@ -732,6 +739,14 @@ class Consumer : public ASTConsumer {
     }
     llvm::raw_ostream& os = *osp;
     // Functions are streamed one by one: the DOM of a whole TU costs gigabytes.
+    // driver bodies first (into a buffer): emitting them may queue library callees, which the loop below then emits
+    std::vector<std::string> driverJson;
+    for (const FunctionDecl* F : Col.Drivers) {
+      std::string buf;
+      llvm::raw_string_ostream ss(buf);
+      ss << Em.function(F);
+      driverJson.push_back(ss.str());
+    }
     os << "{\"tu\":" << json::Value(InFile) << ",\n\"functions\":[\n";
     std::set<const FunctionDecl*> done;
     bool first = true;
@@ -749,6 +764,8 @@ class Consumer : public ASTConsumer {
       first = false;
       os << Em.function(Def);
     }
+    os << "],\n\"drivers\":[\n";
+    for (size_t i = 0; i < driverJson.size(); i++) os << (i ? ",\n" : "") << driverJson[i];
     os << "],\n";
     json::Array pats;
     for (const FunctionDecl* P : Col.Patterns) {
